@@ -475,3 +475,19 @@ def check_C20(ctx):
 
 def replay_C20(ctx):
     return check_C20(ctx)
+
+
+def check_C03(ctx):
+    def classify(name, fields, run):
+        return ("C03:%s:%s" % (run["family"].split(":")[0], "payload" if "payload" in fields[1] else "body"), "%s (faults %s): %s" % (run["family"], run["faults"], fields[1]))
+    n = "60" if ctx.tier == "quick" else "600"
+    return pub_property(ctx, "C03", "Properties/C03.v",
+                        ["Pub/Util.v strip_hidden / clear_sensitive / no_hidden, Pub/Calls.v streams_serialize, Pub/SideEffect.v deliver",
+                         "partial: that the activity reaching Deliver has no bare nested array among its object elements (flat) is shown for the generated scenarios by the replay, not proved through wrapInCreate / AddNewIDs / normalisation; members named bto/bcc on values whose type lacks these properties (Link family, unknown types) are extension members outside the statement"],
+                        {"monitors": ["hidden_bad"], "classify": classify,
+                         "rule": "all outbox/Send scenarios (every activity type, bare objects, 1..3 embedded objects with any mixture of the five addressing properties as IRIs or embedded actors, Social only / both), automatic Accept/Reject, served values with bto/bcc at object depth 0..2; single faults"},
+                        run_specs=[("std", PUB_STD[ctx.tier]), ("get", ["-families", "get,gettypes", "-n", n, "-faults", "single", "-maxruns", "6000"])])
+
+
+def replay_C03(ctx):
+    return check_C03(ctx)
